@@ -284,12 +284,16 @@ def run(rep):
     rep.notes["probe"] = ("after every event, for every context: get g, typeof g, eval g, get f, typeof f, f(), "
                           "Object.prototype.zo, Math.zm, Array-prototype.za, String.zs, Error.prototype.ze, "
                           "_current_vm is None, unexpected global names, g readable, f readable, "
-                          "marker on the history's inventory target (family I)")
+                          "marker of the history (inventory target, family I; path from the object made from text, T; "
+                          "value returned by the kept closure, K), global h exists; virtual time runs on through a "
+                          "history and %d ticks pass before every event" % params["gap"])
     rep.notes["events_validated"] = rep.evaluations
     rep.assumptions += ["String.prototype cannot be reached from script code in this engine; the String constructor "
                         "object stands in for it as a mutation target",
                         "the class of a limit error raised inside a nested VM (indirect eval) belongs to C01; here "
-                        "only its state effects are judged"]
+                        "only its state effects are judged",
+                        "the engine has no block scoping: loop and block variables of the top level are globals, not "
+                        "closure-kept bindings (family K has no such kind)"]
 
 
 def selftest_shape(t):
